@@ -8,6 +8,7 @@ import PgModel.EvoSched
 open Pg Pg.C14
 
 def qOfJ : J → Option Q
+  | .int v => some (v : Q)                 -- a resolved integer schedule (e.g. a probability 0 / 1)
   | .arr [.int m, .int e] => some (mkRat m (2 ^ e.toNat))
   | _ => none
 
@@ -95,6 +96,14 @@ partial def schedOfJ : J → Option Sched
   | .arr [.str "mul", a, b] => do pure (.mul (← schedOfJ a) (← schedOfJ b))
   | .arr [.str "floordiv", a, b] => do pure (.floordiv (← schedOfJ a) (← schedOfJ b))
   | .arr [.str "mod", a, b] => do pure (.mod (← schedOfJ a) (← schedOfJ b))
+  | .arr [.str "stepwise", .arr phases] => do
+      let lens ← phases.mapM (fun ph => match ph with
+        | .arr [.int l, _] => some l.toNat
+        | _ => none)
+      let vals ← phases.mapM (fun ph => match ph with
+        | .arr [_, v] => schedOfJ v
+        | _ => none)
+      pure (.stepwise lens vals)
   | _ => none
 
 /-- every `["sched", S]` in a request is replaced by the value of the schedule at the step of the call. -/
@@ -155,6 +164,9 @@ def primOfJ (g : GSpec) (fuel : Nat) : List J → Option Op
   | [.str "recOrder"] => some (recOrder g)
   | [.str "recPartiallyMapped"] => some (recPMX g)
   | [.str "recCycle"] => some (recCycle g)
+  | [.str "recOrder", .int k] => some (recPerm permuteOrder k.toNat g)
+  | [.str "recPartiallyMapped", .int k] => some (recPerm permutePMX k.toNat g)
+  | [.str "recCycle", .int k] => some (recPerm permuteCycle k.toNat g)
   | [.str "recAverage"] => some (recNumeric none g)
   | [.str "recWeightedAverage"] => some (recNumeric (some harnessWeights) g)
   | [.str "recSegmented", .arr cuts] => do pure (recSegmented g (← cuts.mapM J.asNat?))
